@@ -3,7 +3,9 @@
 namespace OP2Utility
 {
 	// CellTypes returned and set by the GameMap class
-	enum class CellType
+	// Note: The underlying type must be unsigned. CellType is stored in a 5 bit wide bit field (see Tile),
+	// which would otherwise be signed and unable to represent the values 16 through 31.
+	enum class CellType : unsigned int
 	{
 		FastPassible1 = 0,	// Rock vegetation
 		Impassible2,		// Meteor craters, cracks/crevases
